@@ -84,11 +84,21 @@ static void CaseSoupBuilder(Rng &r, Reporter &rep) {
   mb.Start(nf);
   std::vector<int> ids;
   for (auto &s : atts) { int id = mb.AddAttribute(s.type, s.nc, s.dt, s.normalized); ids.push_back(id); }
-  for (int f = 0; f < nf; ++f) for (int a = 0; a < na; ++a) {
-    const SoupAtt &s = atts[a];
-    const uint8_t *p = &s.data[3 * f * s.stride()];
-    if (s.per_face) mb.SetPerFaceAttributeValueForFace(ids[a], FaceIndex(f), p);
-    else mb.SetAttributeValuesForFace(ids[a], FaceIndex(f), p, p + s.stride(), p + 2 * s.stride());
+  {
+    // The builder accepts the (face, attribute) values in any order: faces shuffled, face-major or attribute-major.
+    std::vector<int> forder(nf);
+    for (int f = 0; f < nf; ++f) forder[f] = f;
+    const int order_mode = static_cast<int>(r.below(3));
+    if (order_mode != 0) for (int i = nf - 1; i > 0; --i) std::swap(forder[i], forder[r.below(i + 1)]);
+    auto set_one = [&](int f, int a) {
+      const SoupAtt &s = atts[a];
+      const uint8_t *p = &s.data[3 * f * s.stride()];
+      if (s.per_face) mb.SetPerFaceAttributeValueForFace(ids[a], FaceIndex(f), p);
+      else mb.SetAttributeValuesForFace(ids[a], FaceIndex(f), p, p + s.stride(), p + 2 * s.stride());
+    };
+    if (order_mode == 2) { for (int a = na - 1; a >= 0; --a) for (int f : forder) set_one(f, a); }
+    else { for (int f : forder) for (int a = 0; a < na; ++a) set_one(f, a); }
+    rep.count(std::string("soup_value_order/") + (order_mode == 0 ? "in-order" : order_mode == 1 ? "faces-shuffled" : "attribute-major-shuffled"));
   }
   for (int a = 0; a < na; ++a) mb.SetAttributeUniqueId(ids[a], atts[a].uid);
   std::unique_ptr<Mesh> mesh = mb.Finalize();
@@ -145,7 +155,8 @@ static void CasePointCloudBuilder(Rng &r, Reporter &rep) {
     for (auto &s : atts) ids.push_back(pb.AddAttribute(s.type, s.nc, s.dt));
     for (int a = 0; a < na; ++a) {
       if (r.below(2)) pb.SetAttributeValuesForAllPoints(ids[a], atts[a].data.data(), atts[a].stride());
-      else for (int p = 0; p < np; ++p) pb.SetAttributeValueForPoint(ids[a], PointIndex(p), &atts[a].data[p * atts[a].stride()]);
+      else if (r.below(2)) for (int p = 0; p < np; ++p) pb.SetAttributeValueForPoint(ids[a], PointIndex(p), &atts[a].data[p * atts[a].stride()]);
+      else for (int p = np - 1; p >= 0; --p) pb.SetAttributeValueForPoint(ids[a], PointIndex(p), &atts[a].data[p * atts[a].stride()]);
       pb.SetAttributeUniqueId(ids[a], atts[a].uid);
     }
     std::unique_ptr<PointCloud> pc = pb.Finalize(dedup != 0);
